@@ -141,6 +141,12 @@ def check_layout(ctx, rule, res, only_functions=None, label="", row_order=None, 
             if e.get("how") == "view" and e["shape"] == ["-1"] and not e.get("layout"):
                 ctx.violated(rule, kk, f"`{e['text'][:80]}` flattens with view(-1), which only works on memory that is contiguous in its logical order: a cotangent allocated with ones_like(value), a key or "
                              "a gradient returned by autograd has the strides of the user's tensor — for a transposed / permuted one view(-1) raises RuntimeError where reshape copies", e["loc"])
+            elif e.get("interleaved"):
+                ctx.violated(rule, kk, f"`{e['text'][:80]}` views a vector made of blocks laid end to end as (-1, n) and takes its columns: column c holds the entries c, c + n, c + 2n, … — one "
+                             "entry of every n-th position — not block c (right only when every block has a single element, or there is one block)", e["loc"])
+            elif e.get("inferred_beside_numel"):
+                ctx.violated(rule, kk, f"`{e['text'][:80]}` leaves one dimension to be inferred (-1) beside a number of elements: for a tensor with zero elements (an empty parameter) the -1 cannot be "
+                             "inferred — torch raises 'the unspecified dimension size -1 can be any value' — where naming the number of rows works for every shape", e["loc"])
             elif e.get("how") == "as_strided":
                 ctx.violated(rule, kk, f"`{e['text'][:80]}` re-reads the row-major block of values through the strides {e.get('strides')}: it equals view(shape) only for the contiguous strides of that "
                              "shape — for a non-contiguous key (a transposed weight: shape (2, 3), strides (1, 2)) entry (i, j) receives the value that belongs to another entry", e["loc"])
